@@ -231,10 +231,16 @@ def build_harness(name, flavour="plain", extra_flags=""):
         if p.returncode != 0:
             raise Broken("harness-compile:" + name, p.stderr[-6000:])
         libs = [os.path.join(bdir, "src", f"lib{l}.a") for l in LIBS]
-        cmd = [fl["cxx"], obj, "-o", exe, "-Wl,--start-group"] + libs + ["-Wl,--end-group", "-lpthread"] + fl["extra"].split()
+        # linked next to the final path and renamed into place: a concurrent run of the same property that is executing the old
+        # binary keeps its inode (re-linking in place made such a run fail with 'Permission denied' / 'Text file busy')
+        tmp = f"{exe}.link{os.getpid()}"
+        cmd = [fl["cxx"], obj, "-o", tmp, "-Wl,--start-group"] + libs + ["-Wl,--end-group", "-lpthread"] + fl["extra"].split()
         p = run(cmd)
         if p.returncode != 0:
+            if os.path.exists(tmp):
+                os.remove(tmp)
             raise Broken("harness-link:" + name, p.stderr[-6000:])
+        os.replace(tmp, exe)
         log(f"harness {name}[{flavour}] built in {time.time()-t0:.1f}s")
     return exe
 
